@@ -536,6 +536,10 @@ impl<I: Hash + Eq, A: Hash + Eq> Game<I, A> {
                     0 => Err(GameError::EmptyPlayer),
                     1 => {
                         let action = actions.pop().unwrap();
+                        // the same infoset can't have several actions somewhere else
+                        if player_num.ind(player_infosets).contains_key(&infoset) {
+                            return Err(GameError::ActionsNotEqual);
+                        }
                         match player_num.ind_mut(single_infosets).entry(infoset) {
                             hash_map::Entry::Occupied(ent) => {
                                 if ent.get() != &action {
@@ -556,6 +560,10 @@ impl<I: Hash + Eq, A: Hash + Eq> Game<I, A> {
                         )
                     }
                     _ => {
+                        // the same infoset can't have a single action somewhere else
+                        if player_num.ind(single_infosets).contains_key(&infoset) {
+                            return Err(GameError::ActionsNotEqual);
+                        }
                         let info_ind = match player_num.ind_mut(player_infosets).entry(infoset) {
                             compact::Entry::Occupied(ent) => {
                                 let (ind, info) = ent.get();
